@@ -18,7 +18,8 @@ CLAIMED = {
     "C10": dict(technique=T_E2 + "; symbolic ASCII host/resource/option strings and 128 symbolic key bits; produced request compared with an independently assembled one", design_ref="DESIGN.md 5/C10"),
     "C18": dict(technique="CrossHair (z3 Int/strings) deciding the port rule for every port 1..70000; " + T_E2 + " for the address-list fall-through (outcomes as solver choices, timeout a solver real); exhaustive catalogue enumeration for URL shapes", design_ref="DESIGN.md 5/C18", engine="bvsym+crosshair"),
     "C19": dict(technique="CrossHair deciding the no_proxy domain rule over all Unicode strings in the bound; " + T_E2 + " with ASCII SymStr for longer strings, 32-bit symbolic addresses for every CIDR prefix, symbolic proxy status through the real tunnel code", design_ref="DESIGN.md 5/C19", engine="bvsym+crosshair"),
+    "C11": dict(technique=T_E2 + "; the documented sslopt / environment / scheme / proxy configuration space as solver choices, executed on a recording subclass of the real ssl.SSLContext; OpenSSL's own certificate decision is outside the technique", design_ref="DESIGN.md 5/C11", note="Certificate acceptance by OpenSSL (C code, FFI, live handshake) is not decided: the claim ends at the context and server_hostname handed to OpenSSL."),
+    "C20": dict(technique=T_E2 + "; symbolic ASCII host/domain strings through SimpleCookieJar.get; Set-Cookie histories as solver choices through the real handshake on the fake network vs a reference jar", design_ref="DESIGN.md 5/C20"),
     "C12": dict(technique=T_E2 + " for short writes; z3 integer-order query over lock/write event traces extracted from the real code for ALL thread interleavings, replayed with real threads", design_ref="DESIGN.md 5/C12"),
 }
-_PENDING = "check not built yet in this revision (planned: see DESIGN.md section 5)"
-NOT_APPLICABLE = {("C%02d" % i): _PENDING for i in range(1, 21) if ("C%02d" % i) not in CLAIMED}
+NOT_APPLICABLE = {}
